@@ -1,8 +1,10 @@
 import Arimaa.Props.C13
 import Arimaa.Lemmas.RsAgreePreview
 import Arimaa.Lemmas.RsAgreeStep
+import Arimaa.Lemmas.RsAgreeGen
 import Arimaa.Gen.Bridge.GameState_take_action
 import Arimaa.Gen.Bridge.GameState_trapped_animal_for_action
+import Arimaa.Gen.Bridge.GameState_valid_actions_no_rep
 import Arimaa.Gen.Bridge.PieceBoardState_trapped_piece_bits
 
 /-!
@@ -18,7 +20,7 @@ of these functions that alters behaviour breaks an obligation here without any t
 (written by tools/mkrprops.py)
 -/
 namespace Arimaa
-open Gen GameState Arimaa.Gen.Rs Arimaa.Rt Arimaa.Gen.Bridge
+open Gen GameState Arimaa.Gen.Rs Arimaa.Rt Arimaa.Gen.Bridge Spec
 
 theorem C13_value_of_ok {α : Type} {x : Res α} {p : Bool} {v w : α} (h : x = Res.guard p v) (hx : x = .ok w) :
     p = false ∧ w = v := by
@@ -39,5 +41,28 @@ theorem C13_code_preview (s : GameState) (a : Action) (r : Option (Nat × Piece 
     (h : GameState_trapped_animal_for_action s a = .ok r) : r = s.trappedAnimalForAction a := by
   simp only [bridge_GameState_trapped_animal_for_action] at h
   exact (C13_value_of_ok (RsAgree.trapped_animal_for_action_eq s a) h).2
+
+theorem C13_code_rule_only (s : GameState) (l : List Action) (hl : GameState_valid_actions_no_rep s = .ok l) :
+    l = s.validActionsNoRep := by
+  simp only [bridge_GameState_valid_actions_no_rep] at hl
+  exact (C13_value_of_ok (RsAgree.valid_actions_no_rep_direct s) hl).2
+
+/-- **C13 for the code as it is now**: for a step of the rule-only list of the regenerated code, what the
+regenerated preview returns is `none` exactly when the step leaves no unsupported trap piece, and otherwise names
+the one square, type and owner that hangs after the move -/
+theorem C13_code_preview_exact (s : GameState) (pp : PlayPhase) (h : PlayInv s pp)
+    (hno : NoHanging (absBoard s.board)) (l : List Action) (hl : GameState_valid_actions_no_rep s = .ok l)
+    (i : Nat) (d : Dir) (ha : Action.move i d ∈ l) (r : Option (Nat × Piece × Bool))
+    (hr : GameState_trapped_animal_for_action s (.move i d) = .ok r) :
+    ∃ j, nbr i (dirSpec d) = some j ∧
+      (r = none ↔ ∀ k, k < 64 → hanging (move (absBoard s.board) i j) k = false) ∧
+      (∀ k p g, r = some (k, p, g) →
+        k < 64 ∧ move (absBoard s.board) i j k = some ⟨g, toSpec p⟩ ∧
+          hanging (move (absBoard s.board) i j) k = true ∧
+          ∀ k', k' < 64 → hanging (move (absBoard s.board) i j) k' = true → k' = k) := by
+  have h1 := C13_code_rule_only s l hl
+  have h2 := C13_code_preview s _ r hr
+  subst h1 h2
+  exact C13_preview_exact s pp h hno i d ha
 
 end Arimaa
